@@ -194,11 +194,11 @@ def rewardOne (cl : List (Nat × Nat)) (vals : List Val) (W : Nat) (d : Str) (po
 
 /-- `RewardBallotWinners` for one denomination of the pool -/
 def rewardDenom (winners : List (Nat × Nat)) (vals : List Val) (W : Nat) (rr : RewardRes) (d : Str) : RewardRes :=
-  let pool := rr.bank "pool" d
+  let pool := rr.bank .pool d
   if pool = 0 then rr
   else
     let res := winners.foldl (rewardOne winners vals W d pool) (rr, 0)
-    match res.1.bank.send "pool" "distr" d res.2 with
+    match res.1.bank.send .pool .distr d res.2 with
     | some b => ⟨b, res.1.distr⟩
     | none => res.1
 
